@@ -228,16 +228,37 @@ def step {τ : Type} (N : Normaliser τ) (T : τ) (A : Agg) (batch : List Rec) :
   let A1 := if N.conv T urls then A.rekey (N.norm T') else A
   (T', A1.combine (extractAgg (N.norm T') rs))
 
-/-- A run is a sequence of batches and restarts (state file survives, the learnt tree does not). -/
+/-- `Run` returned an error for this batch (nothing is written, the aggregation is kept). -/
+def stepFails {τ : Type} (N : Normaliser τ) (T : τ) (batch : List Rec) : Bool :=
+  !batch.isEmpty && N.fails T ((external batch).map (·.url))
+
+/-- Plugin state: the learnt tree, the in-memory aggregation and the state file.  The file is rewritten by
+    every successful non-empty `Run` (`UpdateAggregation`) and only then. -/
+structure St (τ : Type) where
+  tree : τ
+  agg : Agg
+  file : Persisted
+
+/-- `InitializeState` on a missing file writes the empty aggregation. -/
+def St.init {τ : Type} (T0 : τ) : St τ := ⟨T0, {}, persist {}⟩
+
+def stepS {τ : Type} (N : Normaliser τ) (s : St τ) (batch : List Rec) : St τ :=
+  if batch.isEmpty then s
+  else if stepFails N s.tree batch then { s with tree := (step N s.tree s.agg batch).1 }
+  else
+    let r := step N s.tree s.agg batch
+    { tree := r.1, agg := r.2, file := persist r.2 }
+
+/-- A run is a sequence of batches and restarts (the state file survives, the learnt tree does not). -/
 inductive Seg where
   | batch (rs : List Rec)
   | restart
 deriving Repr
 
-def runSegs {τ : Type} (N : Normaliser τ) (T0 : τ) : τ × Agg → List Seg → τ × Agg
+def runSegs {τ : Type} (N : Normaliser τ) (T0 : τ) : St τ → List Seg → St τ
   | s, [] => s
-  | s, Seg.batch rs :: rest => runSegs N T0 (step N s.1 s.2 rs) rest
-  | s, Seg.restart :: rest => runSegs N T0 (T0, restore (persist s.2)) rest
+  | s, Seg.batch rs :: rest => runSegs N T0 (stepS N s rs) rest
+  | s, Seg.restart :: rest => runSegs N T0 { tree := T0, agg := restore s.file, file := s.file } rest
 
 /-- Restart-free run over a list of batches. -/
 def runBatches {τ : Type} (N : Normaliser τ) : τ × Agg → List (List Rec) → τ × Agg
